@@ -197,12 +197,11 @@ func (r *Receiver) SegmentHandlerFunc(w http.ResponseWriter, req *http.Request) 
 				t := int64(inTime)
 				if rsd.shouldBeShifted {
 					if masterTimeShift != 0 {
-						if masterTimescale != trd.timeScaleIn {
-							t = t * int64(masterTimescale) / int64(trd.timeScaleIn)
-						}
-						t += masterTimeShift
+						// Shift in the timescale of the track. (Converting the time to the master
+						// timescale and back needs the product time*timescale, which does not fit
+						// 64 bits for wall-clock times in a 90000 timescale, and rounds twice.)
+						t += masterTimeShift * int64(trd.timeScaleIn) / int64(masterTimescale)
 						rsd.isShifted = true
-						t = t * int64(trd.timeScaleIn) / int64(masterTimescale)
 					}
 					segDur := int64(masterSegDur) * int64(trd.timeScaleIn) / int64(masterTimescale)
 					rsd.seqNr = uint32((t+segDur/2)/segDur) - uint32(ch.startNr)
